@@ -71,6 +71,7 @@ pub(super) fn update_times_forward(est_times: &mut [EstTime], time_depart: si::T
 
     let mut queue = BinaryHeap::new();
     queue.push(EstTimeNext::new(time_depart, 1));
+    push_next_alts(est_times, &mut queue, 1);
 
     while !queue.is_empty() {
         let mut idx_curr = queue.pop().unwrap().est_idx;
@@ -105,21 +106,14 @@ pub(super) fn update_times_forward(est_times: &mut [EstTime], time_depart: si::T
 
         // Iterate until reaching any join node (but also process the first node)
         loop {
-            // Add the next alt node to processing if it exists
-            let idx_next_alt = est_times[idx_curr.idx()].idx_next_alt;
-            if idx_next_alt != EST_IDX_NA {
-                est_times[idx_next_alt.idx()].time_sched = est_times[idx_curr.idx()].time_sched;
-                queue.push(EstTimeNext::new(
-                    est_times[idx_next_alt.idx()].time_sched_next(),
-                    idx_next_alt,
-                ));
-            }
-
             assert!(est_times[idx_next.idx()].time_sched.is_nan());
             est_times[idx_next.idx()].time_sched = est_times[idx_curr.idx()].time_sched_next();
 
             idx_curr = idx_next;
             idx_next = est_times[idx_next.idx()].idx_next;
+
+            // Add the next alt nodes of the node just scheduled to processing
+            push_next_alts(est_times, &mut queue, idx_curr);
 
             // Break if the next node is a join node or the last node
             if est_times[idx_next.idx()].idx_prev_alt != EST_IDX_NA
@@ -148,6 +142,55 @@ pub(super) fn update_times_forward(est_times: &mut [EstTime], time_depart: si::T
     }
 }
 
+/// Schedule the alternate (fake) nodes hanging off a node that has just been scheduled and add them to
+/// the queue.  This must happen as soon as the node is scheduled (not when the node itself is popped
+/// later): the time at which the alternate branch leaves can be earlier than the time at which the
+/// primary branch reaches its next node, and the queue must see both to pop them in time order.
+fn push_next_alts(est_times: &mut [EstTime], queue: &mut BinaryHeap<EstTimeNext>, est_idx: EstIdx) {
+    let mut idx_curr = est_idx;
+    loop {
+        let idx_next_alt = est_times[idx_curr.idx()].idx_next_alt;
+        if idx_next_alt == EST_IDX_NA {
+            break;
+        }
+        est_times[idx_next_alt.idx()].time_sched = est_times[idx_curr.idx()].time_sched;
+        queue.push(EstTimeNext::new(
+            est_times[idx_next_alt.idx()].time_sched_next(),
+            idx_next_alt,
+        ));
+        idx_curr = idx_next_alt;
+    }
+}
+
+/// Backward counterpart of [push_next_alts]: mark the alternate previous (fake) nodes of a node that has
+/// just been passed, record their slack and add them to the queue, keyed like every other entry by the
+/// time their own previous node would get.
+fn push_prev_alts(
+    est_times: &mut [EstTime],
+    is_est_passed: &mut [bool],
+    queue: &mut BinaryHeap<EstTimePrev>,
+    est_idx: EstIdx,
+) {
+    let mut idx_curr = est_idx;
+    loop {
+        let idx_prev_alt = est_times[idx_curr.idx()].idx_prev_alt;
+        if idx_prev_alt == EST_IDX_NA {
+            break;
+        }
+        let time_sched = est_times[idx_curr.idx()].time_sched;
+        let time_sub_alt = est_times[idx_prev_alt.idx()].time_sched - time_sched;
+        est_times[idx_prev_alt.idx()].time_sched = time_sched;
+        is_est_passed[idx_prev_alt.idx()] = true;
+        let idx_prev_alt_prev = est_times[idx_prev_alt.idx()].idx_prev;
+        queue.push(EstTimePrev::new(
+            time_sched - est_times[idx_prev_alt_prev.idx()].time_to_next,
+            time_sub_alt,
+            idx_prev_alt,
+        ));
+        idx_curr = idx_prev_alt;
+    }
+}
+
 /// Run shortest path backward on estimated time network.  
 /// This adjusts the linking of all split nodes
 /// and adjusts the scheduled times to reflects the shortest paths.
@@ -158,11 +201,16 @@ pub(super) fn update_times_backward(est_times: &mut [EstTime]) {
     is_est_passed[est_times.len() - 2] = true;
 
     let mut queue = BinaryHeap::new();
-    queue.push(EstTimePrev::new(
-        si::Time::ZERO,
-        si::Time::ZERO,
-        est_times.len() as EstIdx - 2,
-    ));
+    {
+        let idx_start = est_times.len() as EstIdx - 2;
+        let idx_start_prev = est_times[idx_start.idx()].idx_prev;
+        queue.push(EstTimePrev::new(
+            est_times[idx_start.idx()].time_sched - est_times[idx_start_prev.idx()].time_to_next,
+            si::Time::ZERO,
+            idx_start,
+        ));
+        push_prev_alts(est_times, &mut is_est_passed, &mut queue, idx_start);
+    }
 
     while !queue.is_empty() {
         let (mut idx_curr, time_sub) = {
@@ -208,28 +256,15 @@ pub(super) fn update_times_backward(est_times: &mut [EstTime]) {
 
         // Iterate until reaching any split node (but process the first node)
         loop {
-            let idx_prev_alt = est_times[idx_curr.idx()].idx_prev_alt;
-            if idx_prev_alt != EST_IDX_NA {
-                let time_sched = est_times[idx_curr.idx()].time_sched;
-                let time_sub_alt = est_times[idx_prev_alt.idx()].time_sched - time_sched;
-                est_times[idx_prev_alt.idx()].time_sched = time_sched;
-                is_est_passed[idx_prev_alt.idx()] = true;
-                // Key the alternate like every other queue entry: by the time its own previous node
-                // would get (the alternate itself is a zero-duration join node scheduled at `time_sched`)
-                let idx_prev_alt_prev = est_times[idx_prev_alt.idx()].idx_prev;
-                queue.push(EstTimePrev::new(
-                    time_sched - est_times[idx_prev_alt_prev.idx()].time_to_next,
-                    time_sub_alt,
-                    idx_prev_alt,
-                ));
-            }
-
             assert!(!is_est_passed[idx_prev.idx()]);
             est_times[idx_prev.idx()].time_sched -= time_sub;
             is_est_passed[idx_prev.idx()] = true;
 
             idx_curr = idx_prev;
             idx_prev = est_times[idx_prev.idx()].idx_prev;
+
+            // Add the prev alt nodes of the node just passed to processing
+            push_prev_alts(est_times, &mut is_est_passed, &mut queue, idx_curr);
 
             // Break if the prev node is a split node or the first node
             if est_times[idx_prev.idx()].idx_next_alt != EST_IDX_NA
